@@ -12,6 +12,7 @@ import DateutilVerif.Properties.C05
 import DateutilVerif.Properties.C06
 import DateutilVerif.Proofs.TzGenEq
 import DateutilVerif.Proofs.TzGenEqRange
+import DateutilVerif.Proofs.TzGenEqGeneric
 import DateutilVerif.Proofs.ZonesBuild
 
 open TZ Spec Py DtPy TzGen
@@ -52,6 +53,11 @@ theorem gen_eq_model_range_fromutc (z : RangeZone) (t f : Int) (h0 : 0 ≤ f) (h
 theorem gen_eq_model_range_utcoffset (z : RangeZone) (x f : Int) (fold att : Bool) (h0 : 0 ≤ f) (h1 : f < M) :
     Gen.tzrange_utcoffset z (D x f fold att) = (z.utcoffset ⟨x, fold⟩).map (· * M) :=
   range_utcoffset_eq z x f fold att h0 h1
+
+theorem gen_eq_model_tzinfo_fromutc (z : GenericZone) (t f : Int) (att : Bool) (h0 : 0 ≤ f) (h1 : f < M) :
+    Gen.tzinfo_fromutcWall z (D t f false att) = .ok (D (z.fromutcWall t) f false att) ∧
+    Gen.tzinfo_fromutc z (D t f false att) = .ok (D (z.fromutc t).wall f (z.fromutc t).fold att) :=
+  ⟨generic_fromutcWall_eq z t f att h0 h1, generic_fromutc_eq z t f att h0 h1⟩
 
 /-- C04.roundtrip about the TRANSLATED `tzfile.fromutc` / `tzfile.utcoffset`, for instants with microseconds: the
     conversion keeps the microseconds, reports `wall − utc` as the offset, hence converts back to the instant -/
@@ -97,6 +103,15 @@ theorem gen_eq_model_range_isdst (z : RangeZone) (x f : Int) (fold att : Bool) (
 theorem gen_eq_model_naive_isdst (z : RangeZone) (x f : Int) (fold att : Bool) (a b : Int) (h0 : 0 ≤ f) (h1 : f < M) :
     Gen.tzrange_naiveIsdst z (D x f fold att) (Dn a, Dn b) = .ok (RangeZone.naiveIsdst x (a, b)) :=
   naiveIsdst_eq z x f fold att a b h0 h1
+
+theorem gen_eq_model_tzinfo_is_ambiguous (z : GenericZone) (w f : Int) (fold att : Bool) (h0 : 0 ≤ f) (h1 : f < M) :
+    Gen.tzinfo_isAmbiguous z (D w f fold att) = .ok (z.utcoffset ⟨w, false⟩ != z.utcoffset ⟨w, true⟩) ∧
+    DtPy.dispatchAmbiguous z (Gen.tzinfo_isAmbiguous z) (D w f fold att) = .ok (z.isAmbiguous w) :=
+  ⟨generic_isAmbiguous_eq z w f fold att h0 h1, dispatch_eq z w f fold att h0 h1⟩
+
+theorem gen_eq_model_tzinfo_fold_status (z : GenericZone) (t w f : Int) (fw aw au : Bool) (h0 : 0 ≤ f) (h1 : f < M) :
+    Gen.tzinfo_foldStatus z (D t f false au) (D w f fw aw) = .ok (DtPy.b2i (z.foldStatus t w)) :=
+  generic_foldStatus_eq z t w f fw aw au h0 h1
 
 /-- C05.ambiguous_iff about the TRANSLATED `tzfile.is_ambiguous`: it answers True exactly for wall times with two
     pre-images, whatever the microseconds -/
